@@ -123,6 +123,9 @@ func runC16(x *Ctx) {
 		if t.Op == "eq" && (isOneOf(t.Args[0], codeT, codeRaw) || isOneOf(t.Args[1], codeT, codeRaw)) {
 			return false, true
 		}
+		if containsWhitelist(t, codeT, codeRaw) != nil {
+			return false, true
+		}
 		return false, false
 	}, 0, "no success unless the code equals one of the whitelisted constants")
 
@@ -144,6 +147,11 @@ func runC16(x *Ctx) {
 					}
 				}
 				explained = nCode > 0 && !anyTrue
+				for _, f := range v.AllFacts() {
+					if !f.Pol && containsWhitelist(f.Atom, codeT, codeRaw) != nil {
+						explained = true
+					}
+				}
 			}
 			if !explained {
 				bad = append(bad, v)
@@ -391,6 +399,15 @@ func didCodeTables(x *Ctx, parse, pub, from, cfc *ssa.Function) (emitted, parsed
 			}
 		}
 	}
+	for _, v := range psel {
+		for _, f := range v.Facts {
+			if g := containsWhitelist(f.Atom, codeT, codeRaw); g != nil && f.Pol {
+				for _, k := range globalSliceLiteral(g) {
+					parsed[k] = true
+				}
+			}
+		}
+	}
 	table = map[string]bool{}
 	for k := range pubKeyTable(x, pub) {
 		table[k] = true
@@ -428,7 +445,8 @@ func didCodeTables(x *Ctx, parse, pub, from, cfc *ssa.Function) (emitted, parsed
 		if c != nil {
 			bts := fs["bytes"]
 			wantPrefix := "conv[string](call[builtin.append](call[github.com/multiformats/go-varint.ToUvarint](conv[uint64](" + c.String() + ")),"
-			if bts == nil || !strings.HasPrefix(bts.String(), wantPrefix) {
+			wantPrefix2 := "conv[string](call[slices.Concat[[]byte byte]]([call[github.com/multiformats/go-varint.ToUvarint](conv[uint64](" + c.String() + ")),"
+			if bts == nil || !(strings.HasPrefix(bts.String(), wantPrefix) || strings.HasPrefix(bts.String(), wantPrefix2)) {
 				okLayoutF = false
 				dLayoutF += fmt.Sprintf("bytes = %v does not start with the varint of the stored code %s\n", bts, c)
 			}
@@ -489,6 +507,61 @@ func globalMapLiteral(x *Ctx, g *ssa.Global) map[string]string {
 			if mu, ok := in.(*ssa.MapUpdate); ok && mu.Map == m {
 				if k, ok := mu.Key.(*ssa.Const); ok {
 					out[k.Value.ExactString()] = paths.DetachedTerm(init, mu.Value).String()
+				}
+			}
+		}
+	}
+	return out
+}
+
+// containsWhitelist matches slices.Contains(table, code) with table a package-level slice variable and code one
+// of the given renderings; it returns the variable.
+func containsWhitelist(t *paths.Term, codes ...string) *ssa.Global {
+	if t == nil || t.Op != "call" || !strings.HasPrefix(t.Name, "slices.Contains[") || len(t.Args) != 2 || !isOneOf(t.Args[1], codes...) {
+		return nil
+	}
+	a := t.Args[0]
+	if a.Op != "load" || a.Args[0].Op != "global" {
+		return nil
+	}
+	g, _ := a.Args[0].Val.(*ssa.Global)
+	return g
+}
+
+// globalSliceLiteral reads the constant elements of a package-level slice variable initialised by a composite
+// literal in the package initialiser.
+func globalSliceLiteral(g *ssa.Global) []string {
+	init := g.Pkg.Func("init")
+	if init == nil {
+		return nil
+	}
+	var sl *ssa.Slice
+	for _, b := range init.Blocks {
+		for _, in := range b.Instrs {
+			if st, ok := in.(*ssa.Store); ok && st.Addr == ssa.Value(g) {
+				sl, _ = st.Val.(*ssa.Slice)
+			}
+		}
+	}
+	if sl == nil {
+		return nil
+	}
+	arr, ok := sl.X.(*ssa.Alloc)
+	if !ok {
+		return nil
+	}
+	var out []string
+	for _, ref := range *arr.Referrers() {
+		ia, ok := ref.(*ssa.IndexAddr)
+		if !ok {
+			continue
+		}
+		for _, r2 := range *ia.Referrers() {
+			if st, ok := r2.(*ssa.Store); ok && st.Addr == ssa.Value(ia) {
+				if c, ok := st.Val.(*ssa.Const); ok && c.Value != nil {
+					out = append(out, c.Value.ExactString())
+				} else {
+					return nil
 				}
 			}
 		}
